@@ -284,28 +284,8 @@ fn rand_tuple_in_order_f32() {
     assert!(eqb(t.0, r0) && eqb(t.1, r1) && g.0 == h);
 }
 
-// @ob props=C19 tier=thorough kind=P cfg=core-std timeout=1500
-// @fn <Uniform<[T;N]> as Distrib>::sample <(D,E) as Distrib>::sample
-// @clause array and tuple distributions over i32 draw sequentially in order (widths positive and representable)
-#[cfg(not(verif_skip_rand_components_in_order_i32))]
-#[kani::proof]
-#[kani::unwind(4)]
-fn rand_components_in_order_i32() {
-    let g0 = any_rng();
-    let (s, e): ([i32; 2], [i32; 2]) = (kani::any(), kani::any());
-    kani::assume(s[0] < e[0] && e[0].checked_sub(s[0]).is_some());
-    kani::assume(s[1] < e[1] && e[1].checked_sub(s[1]).is_some());
-    let mut h = g0;
-    let r0 = Uniform(s[0]..e[0]).sample(&mut h);
-    let r1 = Uniform(s[1]..e[1]).sample(&mut h);
-    kani::cover!(true);
-    let mut g = g0;
-    let a = Uniform(s..e).sample(&mut g);
-    assert!(a[0] == r0 && a[1] == r1 && g.0 == h.0);
-    let mut g = g0;
-    let t = (Uniform(s[0]..e[0]), Uniform(s[1]..e[1])).sample(&mut g);
-    assert!(t.0 == r0 && t.1 == r1 && g.0 == h.0);
-}
+// Tried and dropped: the i32 instantiation of the in-order obligation (six 32-bit rem_euclid divisions): no verdict in 50 min.
+// The generic obligation rand_components_in_order_generic covers the impls for every component type by parametricity.
 
 // @ob props=C19 tier=quick kind=P cfg=core-std timeout=600
 // @fn <UnitCircle as Distrib>::sample ; Vector::normalize
@@ -333,29 +313,9 @@ fn rand_unit_sphere_total() {
     kani::cover!(true);
 }
 
-// @ob props=C19 tier=thorough kind=B cfg=core-std timeout=1500
-// @fn <VectorsOnUnitDisk as Distrib>::sample <PointsOnUnitDisk as Distrib>::sample
-// @bound at most 2 rejections (3 loop iterations); states needing more are excluded by the unwinding assumption
-// @clause samples from the unit disk lie inside it
-#[cfg(not(verif_skip_rand_disk_inside_bounded))]
-#[kani::proof]
-#[kani::unwind(4)]
-fn rand_disk_inside_bounded() {
-    let mut g = any_rng();
-    // exclude states that need more than 3 draws (bounded stand-in)
-    let mut probe = g;
-    let d = Uniform([-1.0f32; 2]..[1.0; 2]);
-    let mut ok = false;
-    let mut i = 0;
-    while i < 3 {
-        let q: Vec2 = Vec2::from(d.sample(&mut probe));
-        if q.len_sqr() <= 1.0 { ok = true; break; }
-        i += 1;
-    }
-    kani::assume(ok);
-    let v = PointsOnUnitDisk.sample(&mut g);
-    kani::cover!(true);
-    assert!(v.x() * v.x() + v.y() * v.y() <= 1.0);
-}
+// Tried and dropped: "samples from the unit disk/ball lie inside it" as a bounded stand-in. With at most 2 rejections (3 iterations
+// of the rejection loop, each two or three xorshift steps plus a float comparison) CBMC gave no verdict in 50 min, in the design spike
+// (25 min) and again as a combined disk+ball harness (20 min); 17 rejections were not attempted further. The clause stays undecided
+// (DESIGN.md C19 [U], L3): the second-round seed C19b (retry bound of 16, then the candidate is returned unchecked) is therefore missed.
 
 include!("gen/dispatch_rand.rs");
